@@ -41,6 +41,24 @@ func main() {
 		for _, id := range ids {
 			fmt.Println(id, "-", rules.Registry[id].Title)
 		}
+	case "genref":
+		// sa genref : write the declaration table of /repo (the pinned tree) to core/ref_decls.json
+		os.Setenv("SA_NO_NORMALIZE", "1")
+		prog, err := core.Load("/repo", nil, "")
+		if err != nil {
+			fmt.Fprintln(os.Stderr, err)
+			os.Exit(2)
+		}
+		data, _ := json.MarshalIndent(core.DeclTable(prog.Pkgs), "", " ")
+		out := "/verif/sa/core/ref_decls.json"
+		if len(os.Args) > 2 {
+			out = os.Args[2]
+		}
+		if err := os.WriteFile(out, data, 0o644); err != nil {
+			fmt.Fprintln(os.Stderr, err)
+			os.Exit(2)
+		}
+		fmt.Println("wrote", out, len(data), "bytes")
 	case "crosspatch":
 		// sa crosspatch <patch.diff>... : analyse /repo with each patch applied as an in-memory overlay and run
 		// EVERY registered check on it; prints the rules that report a violation / undecided. /repo is not touched.
@@ -76,6 +94,13 @@ func main() {
 					seen := map[string]bool{}
 					for _, o := range ctx.Unlisted() {
 						k := o.Rule
+						if os.Getenv("SA_XP_VERBOSE") != "" {
+							d := o.Detail
+							if len(d) > 420 {
+								d = d[:420]
+							}
+							fmt.Fprintf(os.Stderr, "   %s %s [%s] %s @%s: %s\n", pf, o.Rule, o.Verdict, o.Construct, o.Pos, d)
+						}
 						if o.Verdict == core.Undecided {
 							k = "UNDECIDED:" + k
 						}
